@@ -152,15 +152,11 @@ def run(ctx, config="default"):
         ctx.missing("C14.S4", "utils::base64_hash", "not found")
     else:
         bv = peel(vals(bh).return_value())
-        fin = [x for x in walk(bv) if x.kind == "call" and x.d["term"].get("name") in ("finalize",)]
-        upd = [x for x in walk(bv) if x.kind == "call" and x.d["term"].get("name") == "update"]
-        sha = all("sha2::Sha256VarCore" in (x.d["term"].get("self_ty") or "") for x in fin + upd) and bool(fin) and bool(upd)
-        data = all(len(u.kids) > 1 and peel(u.kids[1]).kind == "param" for u in upd)
-        enc_ok = bv.kind == "call" and bv.d["term"].get("name") == "encode" and "URL_SAFE_NO_PAD" in (bv.kids[0].d.get("c", {}).get("def") or "") and must(bv.kids[1], lambda x: x in fin)
-        if sha and data and enc_ok and len(upd) == 1:
-            ctx.ok("C14.S4", bh, "sha256", "base64_hash = URL_SAFE_NO_PAD.encode(Sha256::new().update(data).finalize()) (hasher type resolves to sha2::Sha256)")
+        ok, why = sha256_b64(fx, bv)
+        if ok:
+            ctx.ok("C14.S4", bh, "sha256", "base64_hash = URL-safe unpadded base64 of SHA-256 over the whole input (%s; hasher type resolves to sha2::Sha256)" % why)
         else:
-            ctx.finding("C14.S4", bh, "sha256", "base64_hash is not SHA-256 of the whole input, URL-safe unpadded: %s" % vstr(bv, 5))
+            ctx.finding("C14.S4", bh, "sha256", "base64_hash is not SHA-256 of the whole input, URL-safe unpadded (%s): %s" % (why, vstr(bv, 5)))
     # ---- S5
     reach = I.reach
     nstat = 0
@@ -172,6 +168,44 @@ def run(ctx, config="default"):
             if info.get("mutable") or info.get("interior_mut"):
                 ctx.finding("C14.S5", f, "static:%s" % st, "process-global mutable state takes part in issuance (salts could be shared, cached or raced on)", line=line)
     ctx.ok("C14.S5", None, "no-global-state", "%d functions reachable from issue_sd_jwt, %d static references, none mutable" % (len(reach), nstat))
+
+
+def _is_urlsafe_nopad_encode(x):
+    return x.kind == "call" and x.d["term"].get("name") == "encode" and len(x.kids) == 2 and "URL_SAFE_NO_PAD" in (x.kids[0].d.get("c", {}).get("def") or "")
+
+
+def sha256_b64(fx, bv):
+    """bv = encode_urlsafe_nopad(H) with H = SHA-256(param), where the encoder is base64's URL_SAFE_NO_PAD engine called directly or through a
+    crate-local one-argument wrapper, and H is either Sha256::digest(data) or new()/update(data)/finalize() with exactly one update"""
+    # the encoder
+    if _is_urlsafe_nopad_encode(bv):
+        H = bv.kids[1]
+        enc = "URL_SAFE_NO_PAD.encode"
+    elif bv.kind == "call" and bv.d["term"].get("resolved_local") and bv.d["term"].get("resolved") in fx.fns and len(bv.kids) == 1:
+        g = fx.fns[bv.d["term"]["resolved"]]
+        gv = peel(vals(g).return_value())
+        if not (_is_urlsafe_nopad_encode(gv) and peel(gv.kids[1]).kind == "param"):
+            return False, "the wrapper %s is not URL_SAFE_NO_PAD.encode(its argument)" % g.name
+        H = bv.kids[0]
+        enc = "%s = URL_SAFE_NO_PAD.encode" % g.name.split("::")[-1]
+    else:
+        return False, "result is not produced by the URL_SAFE_NO_PAD encoder"
+    calls = [x for x in walk(H) if x.kind == "call"]
+    fin = [x for x in calls if x.d["term"].get("name") == "finalize"]
+    upd = [x for x in calls if x.d["term"].get("name") == "update"]
+    one = [x for x in calls if x.d["term"].get("name") == "digest" and x.d["term"].get("trait") in ("sha2::Digest", "digest::Digest")]
+    sha_ty = lambda x: "sha2::Sha256VarCore" in (x.d["term"].get("self_ty") or "")
+    if one and not fin and not upd:
+        if len(one) == 1 and sha_ty(one[0]) and must(H, lambda x: x is one[0]) and one[0].kids and peel(one[0].kids[0]).kind == "param":
+            return True, "%s(Sha256::digest(data))" % enc
+        return False, "one-shot digest is not sha2::Sha256 over the whole parameter"
+    if fin and upd and not one:
+        sha = all(sha_ty(x) for x in fin + upd)
+        data = all(len(u.kids) > 1 and peel(u.kids[1]).kind == "param" for u in upd)
+        if sha and data and len(upd) == 1 and must(H, lambda x: x in fin):
+            return True, "%s(Sha256::new().update(data).finalize())" % enc
+        return False, "hasher is not sha2::Sha256 updated exactly once with the whole parameter"
+    return False, "no SHA-256 computation found"
 
 
 def whole_array_arg(fn, bb, argpos):
